@@ -107,11 +107,11 @@ def main():
     # 2. end to end through the compiled C
     wd = common.scratch_dir("c15")
 
-    def run_prog(src, ops, args=("-findirect-start-ptr",)):
+    def run_prog(src, ops, args=("-findirect-start-ptr",), extra=()):
         o = compile_program(src, ["-O1", *args])
         if not o.ok:
-            return None, repr(o)
-        b, err = cdriver.build(o, wd)
+            return None, ("rejected: " if o.kind in ("syntax", "parse", "compile", "codegen") else "") + repr(o)
+        b, err = cdriver.build(o, wd, extra=extra)
         st["c_programs"] += 1
         if b is None:
             return None, "build: " + err[:300]
@@ -168,6 +168,49 @@ def main():
                     if len(feeds) != 2 or feeds[0][1] != "DONE" or feeds[1][1] != "FAIL" or int(feeds[1][2]) != k:
                         ck.report(f"literal-{kind}-wrong", f"{kind} literal {lit!r}: feeding its bytes gave {feeds[0][1:3] if feeds else None}, a difference at index {k} gave {feeds[1][1:3] if len(feeds) > 1 else None}",
                                   {"source": src, "ops": ops, "trace": lines})
+        # trigraph spellings (??/ is a backslash to a C compiler in ISO mode, and -Wall warns about them otherwise)
+        for tri in ("??/", "??=", "??(", "??)", "??'", "??<", "??>", "??!", "??-", "a??/n", "???/"):
+            expect = tri.encode()
+            n = len(expect)
+            text = tri.replace("'", "'")
+            for how, src in (("assign", f'out str[{n + 1}] s;\nparser {{ s = "{text}"; "x"; }}\n'),
+                             ("default", f'out str[{n + 1}] s = "{text}";\nparser {{ "x"; }}\n')):
+                lines, err = run_prog(src, ["start"], extra=("-trigraphs",))      # as an ISO-mode compiler reads the file
+                if lines is None:
+                    ck.report(f"literal-{how}-rejected", f"string {how} spelled {text!r}: {err}", {"source": src})
+                    continue
+                got = dump_bytes(lines[-1])
+                st["bytes_through_c"] += n
+                if got is None or got[0] != n or got[1] != expect:
+                    ck.report(f"literal-{how}-bytes", f"string {how}: spelled {text!r}, expected {expect.hex()}, stored {got}",
+                              {"source": src, "expected": expect.hex(), "stored": repr(got)})
+        # the empty literal denotes the empty sequence: a program that is accepted must pass it without consuming
+        for lit in ('""', '""i', '""b'):
+            src = f'parser {{ "a"; {lit}; "b"; }}\n'
+            lines, err = run_prog(src, ["start", "feedy:6162"])
+            if lines is None:
+                if err.startswith("rejected"):
+                    st["match_checks"] += 1
+                    continue        # diagnosed: fine
+                ck.report("literal-empty-rejected", f"empty literal {lit}: {err}", {"source": src})
+                continue
+            feeds = [l.split() for l in lines if l.startswith("feed ")]
+            st["match_checks"] += 1
+            if not feeds or feeds[0][1] != "DONE":
+                ck.report("literal-empty-unpassable", f'"a"; {lit}; "b"; is accepted but "ab" gives {feeds[0][1:3] if feeds else None}: the empty literal can never be passed',
+                          {"source": src, "trace": lines})
+        # a character constant is one byte: anything else is diagnosed, never a bigger number
+        for sp in ("\u20ac", "\u0100", "\u00e9"):
+            src = f"out int x = 7;\nparser {{ x = ['{sp}']; \"x\"; }}\n"
+            lines, err = run_prog(src, ["start"])
+            st["int_literals"] += 1
+            if lines is None:
+                if not err.startswith("rejected"):
+                    ck.report("charconst-rejected", f"character constant '{sp}': {err}", {"source": src})
+                continue
+            got = lines[-1].partition(" | ")[2]
+            if got != f"x={ord(sp)}" or ord(sp) > 255:
+                ck.report("charconst-value", f"character constant '{sp}' (code point {ord(sp)}) stores {got}: not a byte value", {"source": src})
         # case-insensitive: either case of ASCII letters only
         for b in range(256):
             if quick and b % 3 and not (65 <= b <= 122):
